@@ -129,9 +129,64 @@ def run(ctx):
             violations.append({"what": "call count depends on directory size for %s: %s" % (k, bysize), "classification": {"kind": "count-varies"}, "replay": {"case": list(k), "counts": {str(a): b for a, b in bysize.items()}}})
         elif len(samples) < 6:
             samples.append({"case": list(k), "calls_by_size": {str(a): b[0] for a, b in bysize.items()}})
-    cov = {"evaluations": len(res), "distinct_nontrivial": nontriv,
-           "rule": "get/touch/set/put x {plain, sharded} writer x stack depth 1-3 x key present/absent x directories pre-populated with %s entries, trigger scripted not to fire: call count identical across sizes, no opendir, <=2 opens per directory per lookup, peak/residual descriptors from the trace cross-checked with /proc/self/fd; plus ensure/get_or_update/set/put/get with maintenance firing (reprieve + eviction), with and without checker: descriptor peak. Non-trivial = size >= 100 or maintenance fired." % ([0, 10, 100, 600] if ctx.quick() else [0, 10, 100, 2000]),
-           "samples": samples[:8], "traces_validated_against_impl": len([1 for r in res if not r[4]])}
+    # descriptors under I/O failures: whichever call fails, nothing stays open after the operation
+    # returns (only a returned handle), as the all-responses theorems state
+    import concurrent.futures as cf
+    from . import c18 as F
+    fjobs = []
+    for desc, L in F.base_cases(ctx):
+        clean = S.run_impl(L)
+        if not clean.steps:
+            continue
+        st0 = clean.steps[0]
+        evs0 = st0["events"]
+        upto = st0["returned_at"] if st0["returned_at"] is not None else len(evs0)
+        can, seqs = T.canon(evs0[:upto], with_seq=True)
+        nstage = len(T.canon(evs0[:st0["staged_at"]]))
+        for kk in range(nstage, len(can)):
+            call = {"copy": "copy_file_range"}.get(can[kk][0], can[kk][0])
+            errs = F.ERRNOS.get(call, ["EIO"])
+            if errs:
+                fjobs.append((desc, L, seqs[kk], kk, errs[0], call))
+
+    def fone(job):
+        desc, L, seq, kk, er, call = job
+        try:
+            impl = S.run_impl(L, fault=(seq, er))
+            model = S.run_model(S.augment(L, impl, fault_by_step={1: (kk, er)}))
+            return job, impl, S.compare(L, impl, model, what=("result",), result_keys=("fds",))
+        except Exception as ex:
+            return job, None, ["EXCEPTION " + repr(ex)]
+    with cf.ThreadPoolExecutor(16) as ex:
+        fres = list(ex.map(fone, fjobs))
+    fagree = 0
+    for (desc, L, seq, kk, er, call), impl, diffs in fres:
+        if diffs:
+            ties.append({"what": "model and implementation disagree on descriptors under an injected fault", "case": [" ".join(map(str, desc["op"])), desc["w"][0], desc["pre"], call, er], "detail": diffs[:3]})
+        else:
+            fagree += 1
+        if impl is None or 1 not in impl.results:
+            continue
+        nontriv += 1
+        cls, d = S.fields(impl.results[1][1])
+        try:
+            fb, fh, fa = [int(x) for x in d.get("fds", "0/0/0").split("/")]
+        except ValueError:
+            continue
+        expect_held = 1 if cls == "OkSome" else 0
+        if fa != fb or fh - fb != expect_held:
+            violations.append({"what": "descriptor left open after %s when %s failed with %s (before/held/after = %d/%d/%d, expected held %d)" % (desc["op"][0], call, er, fb, fh, fa, expect_held),
+                               "classification": {"kind": "residual-under-fault", "op": desc["op"][0], "call": call},
+                               "replay": {"kind": "fault", "scenario": L, "fault_seq": seq, "errno": er, "result": impl.results[1][1]}})
+    seenf, uniqf = set(), []
+    for v in violations:
+        kf = tuple(sorted((a, str(b)) for a, b in v["classification"].items()))
+        if v["classification"].get("kind") != "residual-under-fault" or kf not in seenf:
+            seenf.add(kf); uniqf.append(v)
+    violations = uniqf
+    cov = {"evaluations": len(res) + len(fres), "distinct_nontrivial": nontriv, "fault_runs": len(fres),
+           "rule": "get/touch/set/put x {plain, sharded} writer x stack depth 1-3 x key present/absent x directories pre-populated with %s entries, trigger scripted not to fire: call count identical across sizes, no opendir, <=2 opens per directory per lookup, peak/residual descriptors from the trace cross-checked with /proc/self/fd; plus ensure/get_or_update/set/put/get with maintenance firing (reprieve + eviction), with and without checker: descriptor peak; plus every call of every fault-free execution of the C18 operation set failing once (first plausible errno): before/held/after descriptor counts from /proc/self/fd (nothing stays open but a returned handle), compared with the model under the same fault. Non-trivial = size >= 100, maintenance fired, or a fault run." % ([0, 10, 100, 600] if ctx.quick() else [0, 10, 100, 2000]),
+           "samples": samples[:8], "traces_validated_against_impl": len([1 for r in res if not r[4]]) + fagree}
     if not ctx.quick():
         rc, o = C.coqchk(PROPS)
         cov["coqchk"] = o[-600:]
